@@ -113,6 +113,34 @@ Fixpoint cv_input_fields (rec : ty -> json -> cv_res json) (fs : list inputvalde
       end
   end.
 
+(* the list branch: `value.as_array().unwrap_or(from_ref(value)).iter().map(coerce inner).collect()` *)
+Definition cv_list (rec_inner : json -> cv_res json) (v : json) : cv_res json :=
+  let items := match v with JArr l => l | _ => [v] end in
+  cv_bind (cv_map_m rec_inner items) (fun l => CvOk (JArr l)).
+
+(* the named-type branch (the value is not null) *)
+Definition cv_named (rec : ty -> json -> cv_res json) (s : schema) (n : str) (v : json) : cv_res json :=
+  match sch_get_type s n with
+  | None => CvErr CvValidationBug
+  | Some (EObject _ _ _ _ _ _) | Some (EInterface _ _ _ _ _ _) | Some (EUnion _ _ _ _ _) =>
+      CvErr CvValidationBug
+  | Some (EScalar _ _ _ _) =>
+      if cv_scalar_ok n v then CvOk v else CvErr CvValueError
+  | Some (EEnum _ _ _ vals _) =>
+      match v with
+      | JStr x => if cv_enum_has vals x then CvOk v else CvErr CvValueError
+      | _ => CvErr CvValueError
+      end
+  | Some (EInput _ _ _ fs _) =>
+      match v with
+      | JObj obj =>
+          let fs := cv_fields_of fs in
+          if cv_unknown_key fs obj then CvErr CvValueError
+          else cv_bind (cv_input_fields rec fs obj) (fun o => CvOk (JObj o))
+      | _ => CvErr CvValueError
+      end
+  end.
+
 Fixpoint cv_value (fuel : nat) (s : schema) (t : ty) (v : json) : cv_res json :=
   match fuel with
   | O => CvOutOfFuel
@@ -121,30 +149,8 @@ Fixpoint cv_value (fuel : nat) (s : schema) (t : ty) (v : json) : cv_res json :=
         (if is_non_null t then CvErr CvValueError else CvOk JNull)
       else
         match t with
-        | TList inner | TNonNullList inner =>
-            let items := match v with JArr l => l | _ => [v] end in
-            cv_bind (cv_map_m (cv_value fuel s inner) items) (fun l => CvOk (JArr l))
-        | TNamed n | TNonNullNamed n =>
-            match sch_get_type s n with
-            | None => CvErr CvValidationBug
-            | Some (EObject _ _ _ _ _ _) | Some (EInterface _ _ _ _ _ _) | Some (EUnion _ _ _ _ _) =>
-                CvErr CvValidationBug
-            | Some (EScalar _ _ _ _) =>
-                if cv_scalar_ok n v then CvOk v else CvErr CvValueError
-            | Some (EEnum _ _ _ vals _) =>
-                match v with
-                | JStr x => if cv_enum_has vals x then CvOk v else CvErr CvValueError
-                | _ => CvErr CvValueError
-                end
-            | Some (EInput _ _ _ fs _) =>
-                match v with
-                | JObj obj =>
-                    let fs := cv_fields_of fs in
-                    if cv_unknown_key fs obj then CvErr CvValueError
-                    else cv_bind (cv_input_fields (cv_value fuel s) fs obj) (fun o => CvOk (JObj o))
-                | _ => CvErr CvValueError
-                end
-            end
+        | TList inner | TNonNullList inner => cv_list (cv_value fuel s inner) v
+        | TNamed n | TNonNullNamed n => cv_named (cv_value fuel s) s n v
         end
   end.
 
